@@ -585,7 +585,7 @@ func runC14(s *Svc, m *spec.Method, tier string) *MethodResult {
 				continue
 			}
 			seen[spec.Canon(ev)] = true
-			if c02DeliveryClass(sp, rl, ev) {
+			if c02DeliveryClass(sp, rl, ev) || emptyCollOutsideBody(rl, ev) {
 				r.note("values_left_to_C03_delivery_classes", 1)
 				continue
 			}
@@ -614,6 +614,20 @@ func runC14(s *Svc, m *spec.Method, tier string) *MethodResult {
 		r.HarnessErr = append(r.HarnessErr, fmt.Sprintf("c14: %d format verdicts were asked for strings outside the constructive tables", n))
 	}
 	return r
+}
+
+// emptyCollOutsideBody: an empty array / bytes value in a header or cookie travels as an empty
+// header value, which equals an absent one (normalisation 1); left to C03.
+func emptyCollOutsideBody(l *Layout, v any) bool {
+	for _, p := range l.Places {
+		if p.Loc == spec.LocBody || p.Loc == "dropped" {
+			continue
+		}
+		if pv := placeValue(l, p, v); pv != nil && spec.IsEmptyColl(pv) {
+			return true
+		}
+	}
+	return false
 }
 
 func placeValue(l *Layout, p *Place, whole any) any {
@@ -851,7 +865,18 @@ func c14Malformed(s *Svc, m *spec.Method, l *Layout, o *c14Op, r *MethodResult) 
 				}
 				accepted := call.Invoked == 1
 				docOK, reasons, detail := docVerdictRequest(o, call.ServerReq, call.ReqBody)
-				ts := fmt.Sprintf("variant=%s type=%s loc=%s req=%s", vr.kind, typeClass(sp, p.T), p.Loc, p.Req)
+				var others []string
+				for _, q := range l.Places {
+					if q != p {
+						others = append(others, q.Loc)
+					}
+				}
+				sort.Strings(others)
+				oth := "none"
+				if len(others) > 0 {
+					oth = strings.Join(others, "+")
+				}
+				ts := fmt.Sprintf("variant=%s type=%s loc=%s req=%s others=%s", vr.kind, typeClass(sp, p.T), p.Loc, p.Req, oth)
 				var sigs []string
 				fail := func(sig, what string) {
 					sigs = append(sigs, sig)
@@ -928,6 +953,19 @@ func docVerdictResponse(o *c14Op, call *Call) (ok bool, reasons []string, detail
 				}
 				opts.ExcludeResponseBody = true
 				atomic.AddInt64(&mediaTypeDiffers, 1)
+			}
+		}
+	}
+	// HTTP allows optional whitespace around the elements of a comma-separated header value;
+	// kin-openapi splits documented array headers on "," without trimming.
+	if rr := o.op.Responses.Status(call.Rec.Code); rr != nil && rr.Value != nil {
+		for name, h := range rr.Value.Headers {
+			if h.Value != nil && h.Value.Schema != nil && h.Value.Schema.Value != nil && h.Value.Schema.Value.Type.Is("array") {
+				if vals := hdr.Values(name); len(vals) > 0 {
+					for i := range vals {
+						vals[i] = strings.ReplaceAll(vals[i], ", ", ",")
+					}
+				}
 			}
 		}
 	}
